@@ -54,12 +54,12 @@ pub fn tokenize(source: &str, file_id: &FileId) -> (Vec<Token>, Vec<Diagnostic>)
                                     col = 0;
                                 }
                                 _ => {
-                                    col += c.len_utf8();
+                                    col += c.len_utf16();
                                 }
                             }
                         }
                     }
-                    _ => col += lexer.span().len(),
+                    _ => col += lexer.slice().encode_utf16().count(),
                 }
             }
             Err(_) => {
